@@ -532,3 +532,19 @@ Theorem do_traversal_Q : forall {M : MatchOps} (A : Type) (cb : A -> node -> A *
   (forall acc n, Q acc -> Q (fst (cb acc n))) ->
   forall root acc, Q acc -> Q (do_traversal cb t m root uf gf acc).
 Proof. intros M A cb Q t m uf gf H root acc HQ. unfold do_traversal. now apply trav_Q. Qed.
+
+(* a callback that never asks to unwind (it may answer the node's depth or one less, as RemoveDataCallback does):
+   the traversal is the fold over the visit list, whatever the guard *)
+Theorem do_traversal_go : forall {M : MatchOps} (A : Type) (cb : A -> node -> A * Z) (g : A -> node -> A) t m root uf gf acc,
+  (forall acc n, exists nd, cb acc n = (g acc n, nd) /\ (Z.of_nat (depth n) - 1 <= nd)%Z) ->
+  do_traversal cb t m root uf gf acc = fold_left g (vtrav t m (length root) uf gf (S (max_clauses m)) root) acc.
+Proof.
+  intros M A cb g t m root uf gf acc H. unfold do_traversal.
+  rewrite (trav_fold A cb g (fun _ => false) 0 (fun _ => True)); auto; try discriminate.
+  intros acc0 n _ _. destruct (H acc0 n) as [nd [H1 H2]]. exists nd. auto.
+Qed.
+
+(* every visited node lies strictly below the start node *)
+Theorem vtrav_below_root : forall {M : MatchOps} t m rd uf gf fuel x n,
+  In n (vtrav t m rd uf gf fuel x) -> exists r, r <> [] /\ n_path n = x ++ r.
+Proof. intros. eapply vtrav_below; eauto. Qed.
